@@ -71,6 +71,9 @@ size_t strlen(const char *s)
 int verif_snprintf(char *buf, size_t size, const char *fmt)
 {
 	__CPROVER_assert(buf != NULL && fmt != NULL, "snprintf: non-NULL arguments");
+	/* format strings are program constants (string literals, static tables) -- never run-time data handed in by a caller or
+	 * a library (units describe such data as fresh, i.e. dynamic, objects): a '%' in it would be interpreted */
+	__CPROVER_assert(!__CPROVER_DYNAMIC_OBJECT(fmt), "snprintf: the format string is not run-time data");
 	__CPROVER_assert(size <= ROOM(buf), "snprintf: size within destination");
 	if (size == 0)
 		return nondet_int();
